@@ -13,6 +13,15 @@ impl<'a> WriteableGraph for EngineWriteTxn<'a> {
             .map_err(|e| Error::Other(e.to_string()))
     }
 
+    fn create_node_auto_id(
+        &mut self,
+        proposed: ExternalId,
+        label_id: LabelId,
+    ) -> Result<InternalNodeId> {
+        EngineWriteTxn::create_node_auto_id(self, proposed, label_id)
+            .map_err(|e| Error::Other(e.to_string()))
+    }
+
     fn add_node_label(&mut self, node: InternalNodeId, label_id: LabelId) -> Result<()> {
         EngineWriteTxn::add_node_label(self, node, label_id)
             .map_err(|e| Error::Other(e.to_string()))
